@@ -73,6 +73,7 @@ const alpn = "ntske/1"
 var (
 	errServerNoNTSKE            = errors.New("server does not support ntske/1")
 	errReadInternalServer       = errors.New("ntske received internal server error message")
+	errUnexpectedRecordLength   = errors.New("ntske received record of unexpected length")
 	errReadBadRequest           = errors.New("ntske received bad request error message")
 	errReadUnrecognisedCritical = errors.New("ntske received unrecognized critical error message")
 	errReadUnknown              = errors.New("ntske received unknown error message")
@@ -314,6 +315,15 @@ func ReadData(ctx context.Context, log *slog.Logger, reader *bufio.Reader, data 
 
 		// Get rid of Critical bit.
 		msg.Type &^= (1 << 15)
+
+		// The records read as a single 16-bit value below must have a body
+		// of exactly that size, or the record stream gets out of step.
+		switch msg.Type {
+		case RecNextproto, RecAead, RecPort, RecError:
+			if msg.BodyLen != 2 {
+				return errUnexpectedRecordLength
+			}
+		}
 
 		switch msg.Type {
 		case RecEom:
